@@ -331,6 +331,11 @@ func c19Block(r *Rng, depth int) string {
 				}
 				break
 			}
+			if r.Intn(3) == 0 { // elements nested in pre whose own text begins or ends with line breaks
+				k := Pick(r, []string{"code", "span", "b", "samp"})
+				sb.WriteString("<pre" + c19Attrs(r) + ">" + Pick(r, []string{"", "\n", "intro "}) + "<" + k + ">" + Pick(r, []string{"\n", "\n\n", "", " \n"}) + "first " + c02Word(r) + "\n  second &lt; x" + Pick(r, []string{"", "\n"}) + "</" + k + ">" + Pick(r, []string{"", "\n", "<i>\n\tz</i>"}) + "</pre>")
+				break
+			}
 			sb.WriteString("<pre" + c19Attrs(r) + ">" + Pick(r, []string{"", "", "\n", "\n\n"}) + "line1\n  indented " + c19Text(r) + "\n\n<b>bold</b>\tend </pre>")
 		case x < 10:
 			sb.WriteString("<script>\n  if (a < b && c > d) { x = \"" + c02Word(r) + "\"; }\n</script>")
